@@ -84,6 +84,8 @@ def describe(line):
     extra = ""
     if e.get("panic"):
         extra = " panicked"
+    if e.get("over"):
+        extra += " read memory outside the input"
     return "%s %s%s" % (op, e.get("kind"), extra)
 
 
